@@ -289,6 +289,9 @@ def hermitian_flag_obligations(ctx, rule: str):
 
 
 def run(ctx):
+    from ..lints import check_stale_loop_variables
+
+    check_stale_loop_variables(ctx, "C02-D8 loop-variables", ['circuits._matrices', 'circuits._builtin_gates', 'circuits._gates'])
     repo = ctx.repo
     if not self_check():
         ctx.undecided(R5, "exppoly:self-check", "the normal-form engine failed its embedded positive/negative controls")
